@@ -3,7 +3,7 @@
    the extracted datatypes. *)
 From Coq Require Import ZArith List Floats.
 From Coq Require Import ExtrOcamlBasic ExtrOCamlFloats ExtrOCamlInt63.
-From SC Require Import Num Vec3 Kernel FloatIO Grid Integrator CellCycle Mesh Geometry Forces MeshOps Population Vtk Params Params_gen Output Contact.
+From SC Require Import Num Vec3 Kernel FloatIO Grid Integrator CellCycle Mesh Geometry Forces MeshOps Population Vtk Params Params_gen Output Contact Divider.
 
 Definition kernel_f := kernel NumF.
 
@@ -86,6 +86,13 @@ Definition ct_phase_f := @contact_phase float NumF f_floorZ f_ceilZ f_eps.
 Definition ct_all_pairs_f := @all_pairs_phase float NumF f_ceilZ f_eps.
 Definition ct_prepare_f := @prepare float NumF f_ceilZ f_eps.
 
+(* C09: deterministic stages of the cell divider *)
+Definition dv_edge_plane_f := @edge_plane float NumF.
+Definition dv_divide_face5_f := @divide_face5 float NumF.
+Definition dv_rot_to_z_f := @rot_to_z float NumF.
+Definition dv_to_xy_f := @to_xy float NumF.
+Definition dv_to_plane_f := @to_plane float NumF.
+
 Extraction Language OCaml.
 Extraction "model.ml" NumF kernel_f
   grid_dims_f grid_idx3_f grid_in_range_f grid_flat_f grid_empty_f grid_place_f grid_nbh_f grid_content_f grid_content_at_f
@@ -100,4 +107,5 @@ Extraction "model.ml" NumF kernel_f
   vtk_write vtk_read
   par_numerical par_cell_types par_translation_ok
   out_run_f out_init_f
-  ct_phase_f ct_all_pairs_f ct_prepare_f.
+  ct_phase_f ct_all_pairs_f ct_prepare_f
+  dv_edge_plane_f dv_divide_face5_f dv_rot_to_z_f dv_to_xy_f dv_to_plane_f.
